@@ -31,7 +31,7 @@ pub fn base_graph_counts<K: Kmer>(reads: &[Vec<u8>], stranded: bool, min_count: 
 
 /// Graph for a spec: through the pipeline, or (free-form node set) through `BaseGraph::add`.
 pub fn base_graph_for<K: Kmer>(spec: &crate::spec::GraphSpec) -> BaseGraph<K, u16> {
-    if spec.direct_nodes.is_empty() {
+    let whole: BaseGraph<K, u16> = if spec.direct_nodes.is_empty() {
         base_graph_counts::<K>(&spec.reads, spec.stranded, spec.min_count)
     } else {
         let mut b: BaseGraph<K, u16> = BaseGraph::new(spec.stranded);
@@ -39,5 +39,19 @@ pub fn base_graph_for<K: Kmer>(spec: &crate::spec::GraphSpec) -> BaseGraph<K, u1
             b.add(seq.iter(), Exts::new(*exts), (i % 65535) as u16);
         }
         b
+    };
+    if spec.combine_parts < 2 || whole.len() < 2 {
+        return whole;
     }
+    // same node set, rebuilt as `combine` of several BaseGraphs
+    let m = spec.combine_parts.min(whole.len());
+    let n = whole.len();
+    let mut parts: Vec<BaseGraph<K, u16>> = (0..m).map(|_| BaseGraph::new(spec.stranded)).collect();
+    for i in 0..n {
+        let p = if spec.combine_parts % 2 == 1 { i % m } else { i * m / n };
+        let s = whole.sequences.get(i);
+        let bases: Vec<u8> = (0..debruijn::Mer::len(&s)).map(|j| debruijn::Mer::get(&s, j)).collect();
+        parts[p].add(bases.iter(), whole.exts[i], whole.data[i]);
+    }
+    BaseGraph::combine(parts.into_iter().filter(|g| g.len() > 0))
 }
